@@ -39,3 +39,391 @@ impl SlotsProbe {
         self.0.get(channel_id).is_some()
     }
 }
+
+// ------------------------------------------------------------------------------------------
+// Machine: the real I/O-loop state machine, driven single-threaded.
+// ------------------------------------------------------------------------------------------
+
+use super::connection_state::ConnectionState;
+use super::io_loop_handle::{IoLoopHandle, IoLoopHandle0};
+use super::{
+    Channel0Slot, ChannelMessage, IoLoop, IoLoopMessage, ALLOC_CHANNEL, HEARTBEAT, SET_BLOCKED_TX,
+    STREAM,
+};
+use crate::serialize::OutputBuffer;
+use crate::{
+    ConnectionBlockedNotification, ConnectionTuning, ConsumerMessage, Confirm, Error, Get, IoStream,
+    Return,
+};
+use amq_protocol::frame::AMQPFrame;
+use amq_protocol::protocol::AMQPClass;
+use crossbeam_channel::{Receiver, Sender, TryRecvError};
+use mio::{Event, Evented, Events, Poll, PollOpt, Ready, Token};
+use std::collections::{HashMap, VecDeque};
+use std::io;
+use std::time::Duration;
+
+/// What a scripted `read()` does.
+pub enum ReadStep {
+    Chunk(Vec<u8>),
+    WouldBlock,
+    Eof,
+    Err,
+}
+
+/// What a scripted `write()` does.
+pub enum WriteStep {
+    /// accept at most this many bytes
+    Accept(usize),
+    WouldBlock,
+    Err,
+}
+
+/// A transport whose every `read`/`write` follows a script; an exhausted script is `WouldBlock`.
+#[derive(Default)]
+pub struct ScriptStream {
+    pub reads: VecDeque<ReadStep>,
+    pub writes: VecDeque<WriteStep>,
+    pub written: Vec<u8>,
+}
+
+impl io::Read for ScriptStream {
+    fn read(&mut self, buf: &mut [u8]) -> io::Result<usize> {
+        match self.reads.pop_front() {
+            None | Some(ReadStep::WouldBlock) => Err(io::ErrorKind::WouldBlock.into()),
+            Some(ReadStep::Eof) => Ok(0),
+            Some(ReadStep::Err) => Err(io::Error::new(io::ErrorKind::ConnectionReset, "scripted")),
+            Some(ReadStep::Chunk(bs)) => {
+                let n = bs.len().min(buf.len());
+                buf[..n].copy_from_slice(&bs[..n]);
+                if n < bs.len() {
+                    self.reads.push_front(ReadStep::Chunk(bs[n..].to_vec()));
+                }
+                Ok(n)
+            }
+        }
+    }
+}
+
+impl io::Write for ScriptStream {
+    fn write(&mut self, buf: &[u8]) -> io::Result<usize> {
+        match self.writes.pop_front() {
+            None | Some(WriteStep::WouldBlock) => Err(io::ErrorKind::WouldBlock.into()),
+            Some(WriteStep::Err) => Err(io::Error::new(io::ErrorKind::BrokenPipe, "scripted")),
+            Some(WriteStep::Accept(k)) => {
+                let n = k.min(buf.len());
+                self.written.extend_from_slice(&buf[..n]);
+                Ok(n)
+            }
+        }
+    }
+
+    fn flush(&mut self) -> io::Result<()> {
+        Ok(())
+    }
+}
+
+impl Evented for ScriptStream {
+    fn register(&self, _: &Poll, _: Token, _: Ready, _: PollOpt) -> io::Result<()> {
+        Ok(())
+    }
+    fn reregister(&self, _: &Poll, _: Token, _: Ready, _: PollOpt) -> io::Result<()> {
+        Ok(())
+    }
+    fn deregister(&self, _: &Poll) -> io::Result<()> {
+        Ok(())
+    }
+}
+
+impl IoStream for ScriptStream {}
+
+/// Outcome of a non-blocking send on one of the client→I/O-thread queues.
+pub enum SendOutcome {
+    Sent,
+    Full,
+    Disconnected,
+}
+
+fn send_outcome<T>(r: std::result::Result<(), mio_extras::channel::TrySendError<T>>) -> SendOutcome {
+    match r {
+        Ok(()) => SendOutcome::Sent,
+        Err(mio_extras::channel::TrySendError::Full(_)) => SendOutcome::Full,
+        Err(mio_extras::channel::TrySendError::Disconnected(_)) => SendOutcome::Disconnected,
+        Err(mio_extras::channel::TrySendError::Io(_)) => SendOutcome::Disconnected,
+    }
+}
+
+/// What a client handle finds on its reply queue.
+pub enum Reply {
+    Empty,
+    Disconnected,
+    Method(AMQPClass),
+    ConsumeOk(String, Receiver<ConsumerMessage>),
+    Get(Option<Get>),
+    Err(Error),
+}
+
+/// What the connection handle finds on the channel-allocation reply queue.
+pub enum AllocReply {
+    Empty,
+    Disconnected,
+    Ok(u16),
+    Err(Error),
+}
+
+/// The kinds of message a client handle can put on its queue to the I/O thread.
+pub enum ClientMessage {
+    Send(Vec<u8>),
+    ConnectionClose(Vec<u8>),
+    SetReturnHandler(Option<Sender<Return>>),
+    SetPubConfirmHandler(Option<Sender<Confirm>>),
+}
+
+/// Observable summary of one channel slot of the I/O thread.
+pub struct SlotInfo {
+    pub consumer_tags: Vec<String>,
+    pub has_return_handler: bool,
+    pub has_confirm_handler: bool,
+}
+
+pub struct Machine {
+    io: IoLoop,
+    state: ConnectionState,
+    pub stream: ScriptStream,
+    ch0: Option<IoLoopHandle0>,
+    handles: HashMap<String, IoLoopHandle>,
+}
+
+impl Machine {
+    /// Set up exactly as `IoLoop::start` + `thread_main` do after a finished handshake.
+    pub fn new(channel_max: u16, tuning: ConnectionTuning) -> crate::Result<Machine> {
+        let mut io = IoLoop::new(tuning)?;
+        let (ch0_slot, ch0_handle) = Channel0Slot::new(io.inner.mio_channel_bound);
+        let reg = |e: io::Error| Error::RegisterWithPollHandle { source: e };
+        io.poll
+            .register(&ch0_slot.common.rx, Token(0), Ready::readable(), PollOpt::edge())
+            .map_err(reg)?;
+        io.poll
+            .register(&ch0_slot.set_blocked_rx, SET_BLOCKED_TX, Ready::readable(), PollOpt::edge())
+            .map_err(reg)?;
+        io.poll
+            .register(&ch0_slot.alloc_chan_req_rx, ALLOC_CHANNEL, Ready::readable(), PollOpt::edge())
+            .map_err(reg)?;
+        io.inner.chan_slots.set_channel_max(channel_max);
+        // the protocol header and the handshake frames have been written by now
+        io.inner.outbuf.clear();
+        Ok(Machine {
+            io,
+            state: ConnectionState::Steady(ch0_slot),
+            stream: ScriptStream::default(),
+            ch0: Some(ch0_handle),
+            handles: HashMap::new(),
+        })
+    }
+
+    // ---- I/O-thread side --------------------------------------------------------------------
+
+    /// `ConnectionState::process` on one inbound frame.
+    pub fn process_frame(&mut self, frame: AMQPFrame) -> crate::Result<()> {
+        self.state.process(&mut self.io.inner, frame)
+    }
+
+    /// `IoLoop::handle_steady_event` on a fabricated event.
+    pub fn event(&mut self, token: usize, readable: bool, writable: bool) -> crate::Result<()> {
+        let mut ready = Ready::empty();
+        if readable {
+            ready |= Ready::readable();
+        }
+        if writable {
+            ready |= Ready::writable();
+        }
+        let Machine { io, state, stream, .. } = self;
+        io.handle_steady_event(stream, state, Event::new(ready, Token(token)))
+    }
+
+    pub fn token_stream() -> usize {
+        STREAM.0
+    }
+    pub fn token_heartbeat() -> usize {
+        HEARTBEAT.0
+    }
+    pub fn token_alloc() -> usize {
+        ALLOC_CHANNEL.0
+    }
+    pub fn token_set_blocked() -> usize {
+        SET_BLOCKED_TX.0
+    }
+
+    /// `IoLoop::is_connection_done`.
+    pub fn is_done(&self) -> bool {
+        self.io.is_connection_done(&self.state)
+    }
+
+    pub fn state_name(&self) -> &'static str {
+        match self.state {
+            ConnectionState::Steady(_) => "Steady",
+            ConnectionState::ServerClosing(_) => "ServerClosing",
+            ConnectionState::ClientException => "ClientException",
+            ConnectionState::ClientClosed => "ClientClosed",
+        }
+    }
+
+    /// `Inner::write_to_stream` against the scripted transport.
+    pub fn write(&mut self) -> crate::Result<()> {
+        self.io.inner.write_to_stream(&mut self.stream)
+    }
+
+    pub fn outbuf(&self) -> Vec<u8> {
+        self.io.inner.outbuf[0..].to_vec()
+    }
+
+    pub fn sealed(&self) -> bool {
+        self.io.inner.are_writes_sealed()
+    }
+
+    pub fn channels_registered(&self) -> bool {
+        self.io.inner.channels_are_registered
+    }
+
+    pub fn deregister_nonzero_channels(&mut self) -> crate::Result<()> {
+        self.io.inner.deregister_nonzero_channels(&self.io.poll)
+    }
+
+    pub fn reregister_nonzero_channels(&mut self) -> crate::Result<()> {
+        self.io.inner.reregister_nonzero_channels(&self.io.poll)
+    }
+
+    /// Poll the real `mio::Poll` with a zero timeout; the ready tokens, sorted.
+    pub fn poll(&mut self) -> Vec<usize> {
+        let mut events = Events::with_capacity(128);
+        let _ = self.io.poll.poll(&mut events, Some(Duration::from_millis(0)));
+        let mut v: Vec<usize> = events.iter().map(|e| e.token().0).collect();
+        v.sort_unstable();
+        v.dedup();
+        v
+    }
+
+    pub fn open_ids(&self) -> Vec<u16> {
+        let mut ids: Vec<u16> = self.io.inner.chan_slots.iter().map(|(id, _)| *id).collect();
+        ids.sort_unstable();
+        ids
+    }
+
+    pub fn slot_info(&self, channel_id: u16) -> Option<SlotInfo> {
+        self.io.inner.chan_slots.get(channel_id).map(|slot| {
+            let mut tags: Vec<String> = slot.consumers.keys().cloned().collect();
+            tags.sort();
+            SlotInfo {
+                consumer_tags: tags,
+                has_return_handler: slot.return_handler.is_some(),
+                has_confirm_handler: slot.pub_confirm_handler.is_some(),
+            }
+        })
+    }
+
+    pub fn has_blocked_listener(&self) -> bool {
+        match &self.state {
+            ConnectionState::Steady(ch0) => ch0.blocked_tx.is_some(),
+            _ => false,
+        }
+    }
+
+    // ---- client side ------------------------------------------------------------------------
+
+    /// First half of `IoLoopHandle0::allocate_channel`.
+    pub fn alloc_request(&mut self, channel_id: Option<u16>) -> SendOutcome {
+        match &self.ch0 {
+            Some(h) => send_outcome(h.verif_ends0().1.try_send(channel_id)),
+            None => SendOutcome::Disconnected,
+        }
+    }
+
+    /// Second half of `IoLoopHandle0::allocate_channel`; a handle received is kept under `label`.
+    pub fn alloc_reply(&mut self, label: &str) -> AllocReply {
+        let r = match &self.ch0 {
+            Some(h) => h.verif_ends0().2.try_recv(),
+            None => return AllocReply::Disconnected,
+        };
+        match r {
+            Err(TryRecvError::Empty) => AllocReply::Empty,
+            Err(TryRecvError::Disconnected) => AllocReply::Disconnected,
+            Ok(Err(e)) => AllocReply::Err(e),
+            Ok(Ok(handle)) => {
+                let id = handle.channel_id();
+                self.handles.insert(label.to_string(), handle);
+                AllocReply::Ok(id)
+            }
+        }
+    }
+
+    /// `IoLoopHandle0::set_blocked_tx`, non-blocking.
+    pub fn set_blocked(&mut self, tx: Sender<ConnectionBlockedNotification>) -> SendOutcome {
+        match &self.ch0 {
+            Some(h) => send_outcome(h.verif_ends0().0.try_send(tx)),
+            None => SendOutcome::Disconnected,
+        }
+    }
+
+    fn ends(
+        &self,
+        label: &str,
+    ) -> Option<(
+        &mio_extras::channel::SyncSender<IoLoopMessage>,
+        &Receiver<crate::Result<ChannelMessage>>,
+    )> {
+        if label == "0" {
+            self.ch0.as_ref().map(|h| h.verif_ends())
+        } else {
+            self.handles.get(label).map(|h| h.verif_ends())
+        }
+    }
+
+    /// `IoLoopHandle::send`, non-blocking (label "0" is the connection's own handle).
+    pub fn client_send(&mut self, label: &str, msg: ClientMessage) -> SendOutcome {
+        let msg = match msg {
+            ClientMessage::Send(b) => IoLoopMessage::Send(OutputBuffer::verif_from_bytes(b)),
+            ClientMessage::ConnectionClose(b) => {
+                IoLoopMessage::ConnectionClose(OutputBuffer::verif_from_bytes(b))
+            }
+            ClientMessage::SetReturnHandler(h) => IoLoopMessage::SetReturnHandler(h),
+            ClientMessage::SetPubConfirmHandler(h) => IoLoopMessage::SetPubConfirmHandler(h),
+        };
+        match self.ends(label) {
+            Some((tx, _)) => send_outcome(tx.try_send(msg)),
+            None => SendOutcome::Disconnected,
+        }
+    }
+
+    /// `IoLoopHandle::recv`, non-blocking.
+    pub fn client_recv(&mut self, label: &str) -> Reply {
+        let r = match self.ends(label) {
+            Some((_, rx)) => rx.try_recv(),
+            None => return Reply::Disconnected,
+        };
+        match r {
+            Err(TryRecvError::Empty) => Reply::Empty,
+            Err(TryRecvError::Disconnected) => Reply::Disconnected,
+            Ok(Err(e)) => Reply::Err(e),
+            Ok(Ok(ChannelMessage::Method(m))) => Reply::Method(m),
+            Ok(Ok(ChannelMessage::ConsumeOk(tag, rx))) => Reply::ConsumeOk(tag, rx),
+            Ok(Ok(ChannelMessage::GetOk(get))) => Reply::Get(*get),
+        }
+    }
+
+    pub fn has_handle(&self, label: &str) -> bool {
+        if label == "0" {
+            self.ch0.is_some()
+        } else {
+            self.handles.contains_key(label)
+        }
+    }
+
+    /// Drop a client handle (both of its queue ends).
+    pub fn drop_handle(&mut self, label: &str) {
+        if label == "0" {
+            self.ch0 = None;
+        } else {
+            self.handles.remove(label);
+        }
+    }
+}
